@@ -78,6 +78,25 @@ def main(argv):
         store.conn.set_progress_handler(None, 1)
         print(f"OK B {calls[0]}", flush=True)
         return 0
+    if mode == "spillkill":
+        # dies as soon as the database file has grown by `grow` bytes, i.e. strictly inside the big insert, after
+        # SQLite had to write pages of the uncommitted batch over / behind committed pages of the file
+        path, grow = argv[1], int(argv[2])
+        store = _store(path)
+        a, b = sm.spill_batches()
+        store.add([sm.build_trace(s) for s in a])
+        traces = [sm.build_trace(s) for s in b]
+        base = os.path.getsize(path)
+        print(f"OK A {base}", flush=True)
+
+        def handler():
+            if os.path.getsize(path) > base + grow:
+                os.kill(os.getpid(), signal.SIGKILL)
+            return 0
+        store.conn.set_progress_handler(handler, 500)
+        store.add(traces)
+        print("OK B", flush=True)
+        return 0
     if mode == "victim":
         path, cache, wide, n_rows = argv[1], int(argv[2]), int(argv[3]), int(argv[4])
         store = _store(path, cache)
